@@ -30,12 +30,19 @@ def plan(tier):
 @st.composite
 def cases(draw):
     if draw(st.integers(0, 3)) > 0:
-        recipe = draw(gen.problem_recipe(families=OUTSIDE, densities=(10, 10, 6, 12)))
+        recipe = draw(gen.problem_recipe(families=OUTSIDE, densities=(10, 10, 6, 12), styles=True, offsets=True))
     else:
-        recipe = draw(gen.problem_recipe(densities=(10, 10, 6, 12)))
+        recipe = draw(gen.problem_recipe(densities=(10, 10, 6, 12), styles=True, offsets=True))
     iters = st.one_of(st.sampled_from([1, 2, 3, 20, 40, 100, 400, 2000]), st.integers(5, 400))
     params = draw(gen.solver_params(recipe["n"], recipe["density"], iters, cheap=True))
-    return {"recipe": recipe, "params": params, "refine": draw(st.integers(0, 3)) > 0}
+    case = {"recipe": recipe, "params": params, "refine": draw(st.integers(0, 3)) > 0}
+    if draw(st.integers(0, 4)) == 0:
+        # the refinement is requested explicitly (Solver.DoLocalRefinement(k), k = -1 means 5 % of itersLimit) after a
+        # few global iterations, possibly twice
+        case["explicit"] = {"steps": draw(st.integers(1, min(40, max(1, params["itersLimit"])))),
+                            "k": draw(st.sampled_from([0, 1, 1, 2, 5, 20, -1])), "twice": draw(st.booleans())}
+        case["refine"] = True
+    return case
 
 
 def leaves_box(obj):
@@ -51,8 +58,23 @@ def leaves_box(obj):
 
 def body(case):
     recipe = case["recipe"]
-    run = Run(recipe, case["params"], refine=case["refine"])
-    sol = run.solve()
+    ex = case.get("explicit")
+    if ex:
+        import contextlib
+        run = Run(recipe, case["params"], refine=False)
+        try:
+            run.step(ex["steps"])
+        except Exception as e:
+            if "outside of interval" not in str(e):
+                raise
+            return False, ["float-resolution-stop"]
+        with contextlib.redirect_stdout(run.out):
+            for _ in range(2 if ex["twice"] else 1):
+                run.solver.DoLocalRefinement(ex["k"])
+        sol = run.results()
+    else:
+        run = Run(recipe, case["params"], refine=case["refine"])
+        sol = run.solve()
     lo, hi = recipe["lower"], recipe["upper"]
     tol = [1e-12 * (abs(a) + abs(b) + (b - a)) for a, b in zip(lo, hi)]
 
@@ -81,6 +103,7 @@ def body(case):
             fail("refinement reports value %r but the objective at the returned point %r is %r" % (val, pt, re))
     out = leaves_box(recipe["obj"])
     classes = ["N=%d" % run.n, "refine=%s" % case["refine"], "family=" + recipe["obj"]["family"],
+               "explicit-DoLocalRefinement" if ex else "via-Solve",
                "descent-leaves-box=%s" % out, "local-evals>0" if len(log) > nglob else "local-evals=0"]
     return (case["refine"] and out), classes, {"case": case, "global": nglob, "local": len(log) - nglob}
 
